@@ -932,6 +932,11 @@ func (db *DB) batchWrite(op Op) Result {
 		return Result{Weak: true, WeakWhy: "empty batch"}
 	}
 	if db.Failure == "internal_server" {
+		for _, tb := range op.Batch {
+			if _, ok := db.Tables[tb.Table]; !ok {
+				return Result{Weak: true, WeakWhy: "batch on a missing table under emulated failure"}
+			}
+		}
 		// every request is reported as unprocessed, nothing is applied
 		res := Result{}
 		for _, tb := range op.Batch {
